@@ -258,6 +258,11 @@ def do_check(pid, tier):
     with open(evpath, "w") as f:
         json.dump(ev, f, indent=1, sort_keys=True, default=repr)
     ok = validate_evidence(evpath)
+    if tier == "thorough" and not scratch:
+        # the last thorough run is kept next to the evidence file, which the next quick run rewrites
+        os.makedirs(os.path.join(HOME, "evidence_thorough"), exist_ok=True)
+        with open(os.path.join(HOME, "evidence_thorough", pid + ".json"), "w") as f:
+            json.dump(ev, f, indent=1, sort_keys=True, default=repr)
     for ln in lines:
         print(ln)
     print(
